@@ -362,3 +362,153 @@ theorem baseRateTotals_distinct (r : Rule) (c : ℕ) (rows : List Row) :
   exact key rows [] (fun _ h => by simp at h)
 
 end GoblVerif.Calc
+
+namespace GoblVerif.Calc
+
+/-- signed rational contribution of a category to the tax sum -/
+def catSignedQ (ct : CatTotal) : ℚ :=
+  let v := ct.amount.toRat + (match ct.surcharge with | some s => s.toRat | none => 0)
+  if ct.retained then -v else v
+
+theorem finalSum_step_precise (r : Rule) (hr : r ≠ .currency) (z : Amount) (ct : CatTotal)
+    (hs : ∀ s, ct.surcharge = some s → s.exp ≤ ct.amount.exp) :
+    let s1 := mrp r z ct.amount
+    let out := if ct.retained then
+        (let s2 := sub exactOps s1 ct.amount
+         match ct.surcharge with | some x => sub exactOps s2 x | none => s2)
+      else
+        (let s2 := add exactOps s1 ct.amount
+         match ct.surcharge with | some x => add exactOps s2 x | none => s2)
+    out.toRat = z.toRat + catSignedQ ct := by
+  have hm : mrp r z ct.amount = up z ct.amount.exp := by
+    cases r <;> simp_all [mrp]
+  have he : ct.amount.exp ≤ (up z ct.amount.exp).exp := by rw [up_exp]; omega
+  simp only [hm, catSignedQ]
+  cases hret : ct.retained with
+  | true =>
+    simp only [if_true]
+    cases hsc : ct.surcharge with
+    | none => simp only; rw [sub_toRat _ _ he, up_toRat]; ring
+    | some x =>
+      simp only
+      rw [sub_toRat _ _ (by simp only [sub_exp]; have := hs x hsc; omega), sub_toRat _ _ he, up_toRat]
+      ring
+  | false =>
+    simp only [Bool.false_eq_true, if_false]
+    cases hsc : ct.surcharge with
+    | none => simp only; rw [add_toRat _ _ he, up_toRat]; ring
+    | some x =>
+      simp only
+      rw [add_toRat _ _ (by simp only [add_exp]; have := hs x hsc; omega), add_toRat _ _ he, up_toRat]
+      ring
+
+/-- **tax sum under the precise rule**: ordinary categories (with their
+surcharges) are added, retained ones subtracted, with no rounding at all -/
+theorem finalSum_toRat (r : Rule) (hr : r ≠ .currency) (c : ℕ) (cats : List CatTotal)
+    (hs : ∀ ct ∈ cats, ∀ s, ct.surcharge = some s → s.exp ≤ ct.amount.exp) :
+    (finalSum exactOps r c cats).toRat = (cats.map catSignedQ).sum := by
+  unfold finalSum
+  have key : ∀ (cats : List CatTotal) (z : Amount),
+      (∀ ct ∈ cats, ∀ s, ct.surcharge = some s → s.exp ≤ ct.amount.exp) →
+      (cats.foldl (fun s ct =>
+        let s1 := mrp r s ct.amount
+        if ct.retained then
+          let s2 := sub exactOps s1 ct.amount
+          match ct.surcharge with | some x => sub exactOps s2 x | none => s2
+        else
+          let s2 := add exactOps s1 ct.amount
+          match ct.surcharge with | some x => add exactOps s2 x | none => s2) z).toRat
+        = z.toRat + (cats.map catSignedQ).sum := by
+    intro cats
+    induction cats with
+    | nil => intro z _; simp
+    | cons ct cts ih =>
+      intro z h
+      rw [List.foldl_cons, ih _ (fun x hx => h x (List.mem_cons_of_mem ct hx))]
+      have := finalSum_step_precise r hr z ct (h ct (by simp))
+      simp only at this
+      rw [this]
+      simp only [List.map_cons, List.sum_cons]
+      ring
+  refine (key cats ⟨0, c⟩ hs).trans ?_
+  simp [Amount.toRat]
+
+end GoblVerif.Calc
+
+namespace GoblVerif.Calc
+
+theorem step_exp_precise (r : Rule) (hr : r ≠ .currency) (a x : Amount) :
+    (add exactOps (mrp r a x) x).exp = max a.exp x.exp := by
+  have hm : mrp r a x = up a x.exp := by cases r <;> simp_all [mrp]
+  rw [hm, add_exp, up_exp]
+
+/-- the category surcharge never carries more decimals than the category amount -/
+theorem folds_exp (r : Rule) (hr : r ≠ .currency) (c : ℕ) (rates : List RateTotal)
+    (hrate : ∀ rt ∈ rates, ∀ sp sa, rt.percent.isSome → rt.surcharge = some (sp, sa) → sa.exp = rt.amount.exp)
+    (za : Amount) (zs : Option Amount) (h0 : (zs.getD ⟨0, c⟩).exp ≤ za.exp) :
+    ∀ s, rates.foldl (fun (s : Option Amount) rt =>
+        match rt.percent, rt.surcharge with
+        | some _, some (_, sa) =>
+          let x := s.getD ⟨0, c⟩
+          some (add exactOps (mrp r x sa) sa)
+        | _, _ => s) zs = some s →
+      s.exp ≤ (rates.foldl (fun a rt =>
+        match rt.percent with
+        | none => a
+        | some _ => add exactOps (mrp r a rt.amount) rt.amount) za).exp := by
+  induction rates generalizing za zs with
+  | nil =>
+    intro s hs
+    simp only [List.foldl_nil] at hs ⊢
+    subst hs
+    simpa using h0
+  | cons rt rates ih =>
+    intro s hs
+    rw [List.foldl_cons] at hs ⊢
+    have hrest := fun x hx => hrate x (List.mem_cons_of_mem rt hx)
+    cases hp : rt.percent with
+    | none =>
+      simp only [hp] at hs ⊢
+      exact ih hrest za zs h0 s hs
+    | some p =>
+      cases hsr : rt.surcharge with
+      | none =>
+        simp only [hp, hsr] at hs ⊢
+        refine ih hrest _ zs ?_ s hs
+        rw [step_exp_precise r hr]; omega
+      | some x =>
+        obtain ⟨sp, sa⟩ := x
+        simp only [hp, hsr] at hs ⊢
+        have hsa : sa.exp = rt.amount.exp := hrate rt (by simp) sp sa (by simp [hp]) hsr
+        refine ih hrest _ _ ?_ s hs
+        simp only [Option.getD_some]
+        rw [step_exp_precise r hr, step_exp_precise r hr, hsa]
+        omega
+
+theorem rateAmounts_surcharge_exp (rt : RateTotal) (c : ℕ) :
+    ∀ sp sa, (rateAmounts exactOps rt c).percent.isSome → (rateAmounts exactOps rt c).surcharge = some (sp, sa) →
+      sa.exp = (rateAmounts exactOps rt c).amount.exp := by
+  intro sp sa hp hs
+  unfold rateAmounts at hp hs ⊢
+  cases h : rt.percent with
+  | none => simp [h] at hp
+  | some p =>
+    simp only [h] at hs ⊢
+    cases hsr : rt.surcharge with
+    | none => simp [hsr] at hs
+    | some x =>
+      simp only [hsr, Option.map_some, Option.some.injEq, Prod.mk.injEq] at hs
+      rw [← hs.2]; rfl
+
+/-- the invariant `finalSum_toRat` needs holds for everything `catAmounts` produces -/
+theorem catAmounts_surcharge_exp_le (r : Rule) (hr : r ≠ .currency) (c : ℕ) (ct : CatTotal) :
+    ∀ s, (catAmounts exactOps r c ct).surcharge = some s → s.exp ≤ (catAmounts exactOps r c ct).amount.exp := by
+  intro s hs
+  simp only [catAmounts] at hs ⊢
+  refine folds_exp r hr c _ ?_ ⟨0, c⟩ none (by simp) s hs
+  intro rt hrt
+  simp only [List.mem_map] at hrt
+  obtain ⟨x, _, rfl⟩ := hrt
+  exact rateAmounts_surcharge_exp x c
+
+end GoblVerif.Calc
